@@ -399,6 +399,7 @@ class LbWorld(object):
           ops.append(['LeaveX', e])
     if 'Back' in alpha and self.lp.wall_offset == 0.0:
       ops.append(['Back', 0])
+      ops.append(['Back', 1])      # more than an hour (a mis-set clock being corrected)
     if 'Gate' in alpha and self.loading:
       ops.append(['Gate'])
     if 'Adv' in alpha and not self.loading:
@@ -560,7 +561,7 @@ class LbWorld(object):
 
   def _op_Back(self, k):
     """The wall clock steps backwards (NTP correction, VM migration); the event loop's own time does not."""
-    self.lp.wall_offset -= [10.0, 0.05][k]
+    self.lp.wall_offset -= [10.0, 4000.0][k]
 
   def _ema_update(self, ts, sample):
     if self.m_ema is None:
@@ -650,11 +651,12 @@ class LbWorld(object):
       ema = lb._ema
       k += [tuple(self.idle_eps()), tuple(sorted(self.ep_idx(e) for e in lb._pending_endpoints)), lb._total,
             round(ema.value, 9), round(now - ema._time, 6) if ema._time != -1 else None,
-            round(now - lb._time._last, 6)]
+            round(now - lb._time._last, 6) if hasattr(getattr(lb, '_time', None), '_last') else None]
     timers = tuple(round(at - now, 6) for (at, seq, tm) in self.lp.active_timers() if at - now < 1000 and self.p.get('key_timers'))
     k.append(timers)
     k.append(self._nnotif() if self.p.get('max_notifications') else 0)
     k.append(getattr(self, '_leavex', False))
+    k.append(self.lp.wall_offset)
     if self.m_ema is not None and self.p.get('c06'):
       k.append((round(self.m_ema[0], 9), round(now - self.m_ema[1], 6), self.lp.wall_offset))
     return repr(k)
